@@ -96,7 +96,7 @@ func c17HTTPPage(code int, body []byte, idField string) c17Page {
 
 func TestC17(t *testing.T) {
 	c := evid.New("C17")
-	c.Rule = "collections of 0-40 items, one in twelve of 101-230 items with page sizes {100,101,150,n-1,n,1000} (ids a random increasing sequence with gaps, some beyond 64 bits) x page size {1,2,3,n-1,n,n+1,100,absent} x order x optional filter (reference / one-key metadata / $not / $and with a nested $not / $or / $or of 20-90 alternatives), walked through three layers: L1 bunpaginate.UsingColumn / UsingOffset on a harness table, L2 ledgerstore.GetTransactions / GetLogs / GetAccountsWithVolumes, L3 the v2 and v1 HTTP list handlers with ?cursor=. Rows are served by the harness's mini SQL engine. Oracle: following next from the first page yields the filtered collection once, in order, every page but the last full, termination; previous of page i is page i-1 and the first page has none; every statement of the walk carries the filter of the first request (the token stands for the same query). Non-trivial = a walk of >=3 pages, or with a filter, or with a backward step; distinct by (layer, list, sizes, filter, ids). Page sizes left to the server are written as an absent parameter or as an explicit pageSize=0."
+	c.Rule = "collections of 0-40 items, one in twelve of 101-230 items with page sizes {100,101,150,n-1,n,1000} (ids a random increasing sequence with gaps, some beyond 64 bits) x page size {1,2,3,n-1,n,n+1,100,absent} x order x optional filter (reference / one-key metadata / $not / $and with a nested $not / $or / $or of 20-90 alternatives / a generated tree of $and, $or and $not nested to depth 3 over three metadata atoms, evaluated row by row by the model), walked through three layers: L1 bunpaginate.UsingColumn / UsingOffset on a harness table, L2 ledgerstore.GetTransactions / GetLogs / GetAccountsWithVolumes, L3 the v2 and v1 HTTP list handlers with ?cursor=. Rows are served by the harness's mini SQL engine. Oracle: following next from the first page yields the filtered collection once, in order, every page but the last full, termination; previous of page i is page i-1 and the first page has none; every statement of the walk carries the filter of the first request (the token stands for the same query). Non-trivial = a walk of >=3 pages, or with a filter, or with a backward step; distinct by (layer, list, sizes, filter, ids). Page sizes left to the server are written as an absent parameter or as an explicit pageSize=0."
 	c.Assumptions = []string{"PostgreSQL is replaced by a mini engine that evaluates WHERE conjuncts / ORDER BY / LIMIT / OFFSET of the narrow statement shapes bun emits here; unknown shapes abort the case as a harness error", "static collection (no concurrent inserts)"}
 	runProp(t, c, func(rt *rapid.T) {
 		if rapid.IntRange(0, 7).Draw(rt, "tokenFamily") == 0 {
@@ -140,11 +140,11 @@ func TestC17(t *testing.T) {
 		}
 		filter := ""
 		if !strings.HasPrefix(layer, "L1") && !strings.Contains(layer, "logs") {
-			filter = rapid.SampledFrom([]string{"", "", "reference", "metadata", "not", "and-not", "or", "or-many", "or-many"}).Draw(rt, "filter")
+			filter = rapid.SampledFrom([]string{"", "", "reference", "metadata", "not", "and-not", "or", "or-many", "or-many", "tree", "tree"}).Draw(rt, "filter")
 			if strings.Contains(layer, "accounts") && filter == "reference" {
 				filter = "metadata"
 			}
-			if strings.Contains(layer, "-v1-") && (filter == "not" || filter == "and-not" || filter == "or" || filter == "or-many") {
+			if strings.Contains(layer, "-v1-") && (filter == "not" || filter == "and-not" || filter == "or" || filter == "or-many" || filter == "tree") {
 				filter = "metadata" // the v1 query parameters cannot express composite filters
 			}
 			if layer == "L3-v1-accounts" && rapid.IntRange(0, 2).Draw(rt, "balanceFilter") == 0 {
@@ -152,6 +152,12 @@ func TestC17(t *testing.T) {
 			}
 		}
 		desc := rapid.Bool().Draw(rt, "desc")
+		// a generated filter: $and / $or / $not nested to depth 3 over atoms whose truth on a row is known
+		// (k=v holds on tagged rows; k=w and k2=x hold on none)
+		var tree *c17Filter
+		if filter == "tree" {
+			tree = c17DrawFilter(rt, 0)
+		}
 
 		// rows
 		eng := &sqlrec.Engine{Tables: map[string]*sqlrec.Table{}, Ledger: "l1"}
@@ -181,6 +187,8 @@ func TestC17(t *testing.T) {
 				match = tag // and-not: k=v and not k2=x (no row has k2); or: k=v or k=w (no row has k=w)
 			case "not":
 				match = !tag
+			case "tree":
+				match = tree.eval(tag)
 			}
 			nRev := 1
 			if rapid.IntRange(0, 2).Draw(rt, "revised") == 0 {
@@ -250,6 +258,8 @@ func TestC17(t *testing.T) {
 				alts = append(alts, query.Match("metadata[k]", fmt.Sprintf("no-such-value-%03d", i)))
 			}
 			qb = query.Or(alts...)
+		case "tree":
+			qb = tree.builder()
 		}
 		filterBody := ""
 		switch filter {
@@ -269,6 +279,8 @@ func TestC17(t *testing.T) {
 				parts = append(parts, fmt.Sprintf(`{"$match":{"metadata[k]":"no-such-value-%03d"}}`, i))
 			}
 			filterBody = `{"$or":[` + strings.Join(parts, ",") + `]}`
+		case "tree":
+			filterBody = tree.body()
 		}
 		be := httpsim.NewFakeBackend()
 		be.Override = func(name string) backend.Ledger {
@@ -583,4 +595,99 @@ func TestC17(t *testing.T) {
 		}
 		record()
 	})
+}
+
+// c17Filter is a generated filter expression; eval is its truth on a row, given whether the row is tagged (k=v).
+type c17Filter struct {
+	Op   string // "k=v", "k=w", "k2=x", "$not", "$and", "$or"
+	Kids []*c17Filter
+}
+
+func c17DrawFilter(rt *rapid.T, depth int) *c17Filter {
+	ops := []string{"k=v", "k=v", "k=w", "k2=x", "$not", "$and", "$or", "$and", "$or"}
+	if depth >= 3 {
+		ops = ops[:4]
+	}
+	if depth == 0 {
+		ops = ops[5:] // the root is a set: that is where nesting shows
+	}
+	f := &c17Filter{Op: rapid.SampledFrom(ops).Draw(rt, "filterOp")}
+	switch f.Op {
+	case "$not":
+		f.Kids = []*c17Filter{c17DrawFilter(rt, depth+1)}
+	case "$and", "$or":
+		n := rapid.IntRange(1, 3).Draw(rt, "filterArity")
+		for i := 0; i < n; i++ {
+			f.Kids = append(f.Kids, c17DrawFilter(rt, depth+1))
+		}
+	}
+	return f
+}
+
+func (f *c17Filter) eval(tag bool) bool {
+	switch f.Op {
+	case "k=v":
+		return tag
+	case "k=w", "k2=x":
+		return false
+	case "$not":
+		return !f.Kids[0].eval(tag)
+	case "$and":
+		for _, k := range f.Kids {
+			if !k.eval(tag) {
+				return false
+			}
+		}
+		return true
+	default:
+		for _, k := range f.Kids {
+			if k.eval(tag) {
+				return true
+			}
+		}
+		return false
+	}
+}
+
+func (f *c17Filter) atom() (string, string) {
+	switch f.Op {
+	case "k=v":
+		return "metadata[k]", "v"
+	case "k=w":
+		return "metadata[k]", "w"
+	}
+	return "metadata[k2]", "x"
+}
+
+func (f *c17Filter) builder() query.Builder {
+	switch f.Op {
+	case "$not":
+		return query.Not(f.Kids[0].builder())
+	case "$and", "$or":
+		var kids []query.Builder
+		for _, k := range f.Kids {
+			kids = append(kids, k.builder())
+		}
+		if f.Op == "$and" {
+			return query.And(kids...)
+		}
+		return query.Or(kids...)
+	}
+	k, v := f.atom()
+	return query.Match(k, v)
+}
+
+func (f *c17Filter) body() string {
+	switch f.Op {
+	case "$not":
+		return `{"$not":` + f.Kids[0].body() + `}`
+	case "$and", "$or":
+		var kids []string
+		for _, k := range f.Kids {
+			kids = append(kids, k.body())
+		}
+		return `{"` + f.Op + `":[` + strings.Join(kids, ",") + `]}`
+	}
+	k, v := f.atom()
+	return fmt.Sprintf(`{"$match":{%q:%q}}`, k, v)
 }
